@@ -48,7 +48,9 @@ def run(ctx, anchors=None):
         have = set(fb.record_fields(rec))
         if [x for x in names if x not in have]:
             raise AnalysisBroken("R13.1: anchor name(s) %s not found in %s - renamed or restructured" % ([x for x in names if x not in have], rec))
-    X = symx.Explorer(prog, inline=lambda fn, n: False, transparent=lambda n: True)
+    # free helper templates of the codec's own header (a loop moved into `UnserializeWitnessStacks(tx, s)`) are part of the codec
+    X = symx.Explorer(prog, inline=lambda fn, n: fn.body is not None and fn.file == w.file and not fn.rec and len(fn.params) == 2 and
+                      fn.short not in ("SerializeTransaction", "UnserializeTransaction", "Serialize", "Unserialize"), transparent=lambda n: True)
     TX, ST = ("a", "tx"), ("a", "s")
 
     def chains(func):
